@@ -215,6 +215,11 @@ func NewStore(ctx context.Context, cfg StoreConfig) (*Store, error) {
 			s.logf("WARNING: cache is not valid; discarding it")
 			clear(s.active.m) // reset
 		}
+		if s.active.m == nil {
+			// A cache holding the JSON value null decodes without error to a
+			// nil map; treat it as empty too.
+			s.active.m = make(map[string]*cachedSecret)
+		}
 	}
 
 	// If there are any configured secrets that weren't cached, stub them in.
